@@ -2648,6 +2648,29 @@ fn gen_c11(rng: &mut Rng, ops: &mut Vec<String>, stats: &mut Stats) {
         others.push(s);
         ops.push(format!("sest A k{}:1:4:0 = {}", s, if rng.chance(1, 2) { "i" } else { "o" }));
     }
+    if !others.is_empty() && rng.chance(1, 6) {
+        // directed: a lookup for one node ends on its first answer with requests to other nodes still
+        // in flight; the next lookup asks those nodes again; the answer to the *old* request arrives,
+        // the new lookup's own request to that node fails - that node did not answer the new lookup
+        stats.bump("gen.c11.directed-late-answer-to-an-earlier-lookup");
+        // (the target is closer to B than to anybody else, and B knows of nobody closer)
+        // and the one node it names, closer to the target than the rest of the table, knows nobody)
+        let tid = flip_target(&bid, rng.range(200, 250), rng);
+        ops.push(format!("squery A {} 2", hex::encode(tid)));
+        ops.push(format!("sresp A #q@{} ok nodes 1 @in:{}", bhex, rng.below(1000)));
+        ops.push("sresp A #l ok nodes 1 -".into());
+        let tid2 = flip_target(&bid, rng.range(200, 250), rng);
+        ops.push(format!("squery A {}", hex::encode(tid2)));
+        for o in others.iter() {
+            let oh = hex::encode(id_of_seed(*o));
+            ops.push(format!("sresp A #q@{} ok nodes 1 @in:{}", oh, rng.below(1000)));
+            ops.push(format!("sfail A #q@{}", oh));
+        }
+        ops.push(format!("shonest A #q@{} B", bhex));
+        for _ in 0..8 {
+            ops.push("sfail A #q".into());
+        }
+    }
     let rounds = rng.range(2, 5);
     for _ in 0..rounds {
         match rng.below(10) {
@@ -2757,11 +2780,20 @@ fn gen_c11(rng: &mut Rng, ops: &mut Vec<String>, stats: &mut Stats) {
                         _ => ops.push("sfail A #q".into()),
                     }
                 }
-                for _ in 0..6 {
-                    ops.push("sfail A #q".into());
+                if rng.chance(1, 3) {
+                    // what the lookup still has in flight is left unanswered: the answers (or failures)
+                    // arrive while the next lookup runs, and are none of its business
+                    stats.bump("gen.c11.requests-left-in-flight-after-the-lookup");
+                } else {
+                    for _ in 0..6 {
+                        ops.push("sfail A #q".into());
+                    }
                 }
             }
         }
+    }
+    for _ in 0..8 {
+        ops.push("sfail A #q".into());
     }
     ops.push("sbans".into());
 }
